@@ -74,7 +74,7 @@ def main():
     print('not_applicable:', [c['property_id'] for c in na])
 
 
-SOURCE_COMMITS = ['82c67fa']
+SOURCE_COMMITS = ['82c67fa', 'a299639']
 
 if __name__ == '__main__':
     main()
